@@ -187,6 +187,13 @@ func candidateInvariants(fn *ssa.Function, hd *ssa.BasicBlock, site ssa.Instruct
 			})
 		}
 	}
+	// a loop-carried slice that only grows: len(φ) >= 1, len(φ) >= len(init)
+	for _, d := range slicePhis {
+		d := d
+		out = append(out, func(p *prover, s map[ssa.Value]ssa.Value) linExpr {
+			return with(p, s, func() linExpr { return p.lenOf(d).add(newLin(1), -1) })
+		})
+	}
 	// pair invariant: s·len(d) + k·i is constant
 	for _, d := range slicePhis {
 		for _, i := range intPhis {
